@@ -2,7 +2,7 @@ import GoldModel.Model.Lexer
 import GoldModel.Drive.Common
 -- @mode lex Gold.Drive.LexMode.run
 -- @mode lexold Gold.Drive.LexMode.runOld
-/-! driver mode `lex` (model M-LEX) — one case per line: `lex <escaped-text>`.
+/-! driver mode `lex` (model M-LEX) — one case per line: `lex =<escaped-text>` (the `=` keeps the empty text a word).
     Output: one word per token `t,<Kind>,<escaped value>,<offset>,<start line>,<start col>,<end line>,<end col>`
     followed by one word per error `e,<start line>,<start col>,<end line>,<end col>`, or `-` if there is neither.
     (The ghost fields `extent` / error offset are not printed: the implementation does not store them.)
@@ -23,7 +23,7 @@ def render (r : List Token × List LexErr) : String :=
 def textOf (args : List String) : List Char :=
   match args with
   | [] => []
-  | a :: _ => unescapeChars a.toList
+  | a :: _ => unescapeChars (a.toList.drop 1)   -- the text word is `=` followed by the escaped text
 
 def run (args : List String) : String := render (lex asciiUpper (textOf args))
 def runOld (args : List String) : String := render (lexOld asciiUpper (textOf args))
